@@ -516,7 +516,7 @@ pub fn run(tier: Tier, totals: &mut Totals) {
     totals.traces += scripts;
     totals.nontrivial += scripts;
     totals.extra.insert("script_sequences".into(), json!(scripts));
-    for n in tier.pick(vec![300usize, 3000], vec![300usize, 3000, 30000]) {
+    for n in with_thresholds_usize(tier.pick(vec![300usize, 3000], vec![300usize, 3000, 30000]), tier.pick(1024, 16384)) {
         totals.evals += 1;
         totals.transitions += 1;
         totals.traces += 1;
@@ -604,10 +604,59 @@ fn scale_registry(n: usize) -> Result<(), (String, String)> {
             }
         }
     }
+    // the model of both tables, kept through everything that follows
+    let mut m_names: BTreeSet<String> = (0..n).map(|i| format!("pkg::Cmd{}", i)).collect();
+    let mut m_aliases: BTreeMap<String, String> = BTreeMap::new();
+    for i in 0..n {
+        m_aliases.insert(format!("c{}", i), format!("pkg::Cmd{}", i));
+        m_aliases.insert(format!("alias_{}", i), format!("pkg::Cmd{}", i));
+    }
+    let tables = |c: &Commands, m_names: &BTreeSet<String>, m_aliases: &BTreeMap<String, String>, when: &str| -> Result<(), (String, String)> {
+        let names: BTreeSet<String> = c.commands.keys().cloned().collect();
+        let aliases: BTreeMap<String, String> = c.aliases.iter().map(|(k, v)| (k.clone(), v.clone())).collect();
+        if names != *m_names {
+            return Err(("scale:name-table".into(), format!("{}: the name table differs from the model by {:?}", when, names.symmetric_difference(m_names).take(6).collect::<Vec<_>>())));
+        }
+        if aliases != *m_aliases {
+            let extra: Vec<_> = aliases.iter().filter(|(k, v)| m_aliases.get(*k) != Some(*v)).take(4).collect();
+            let missing: Vec<_> = m_aliases.iter().filter(|(k, v)| aliases.get(*k) != Some(*v)).take(4).collect();
+            return Err(("scale:alias-table".into(), format!("{}: the alias table differs from the model: unexpected {:?}, missing {:?}", when, extra, missing)));
+        }
+        Ok(())
+    };
+    tables(&c, &m_names, &m_aliases, "after the registrations")?;
+    // an accepted registration whose name is an alias of another command takes that name over: the alias
+    // is gone for good, whatever happens to the registry later
+    if n > 3 {
+        if c.set(Box::new(Cmd { name: "alias_1".into(), aliases: vec!["taker".into()] })).is_err() {
+            return err("set-refused", "a command named like the alias alias_1 was refused".into());
+        }
+        m_names.insert("alias_1".into());
+        m_aliases.remove("alias_1");
+        m_aliases.insert("taker".into(), "alias_1".into());
+        tables(&c, &m_names, &m_aliases, "after a command took the name of an alias")?;
+        match c.get("alias_1") {
+            Some(found) if found.name() == "alias_1" => (),
+            other => return err("lookup", format!("alias_1 resolves to {:?} after a command of that name was registered", other.map(|x| x.name()))),
+        }
+    }
     for i in (0..n).step_by(2) {
         let key = if i % 4 == 0 { format!("c{}", i) } else { format!("pkg::Cmd{}", i) };
         if !c.remove(&key) {
             return err("remove-refused", format!("remove({}) returned false", key));
+        }
+        m_names.remove(&format!("pkg::Cmd{}", i));
+        m_aliases.retain(|_, v| *v != format!("pkg::Cmd{}", i));
+        // the tables are compared after every removal up to 200, then every 97th
+        if i < 400 || (i / 2) % 97 == 0 {
+            tables(&c, &m_names, &m_aliases, &format!("after {} removals", i / 2 + 1))?;
+        }
+    }
+    tables(&c, &m_names, &m_aliases, "after all removals")?;
+    if n > 3 {
+        match c.get("alias_1") {
+            Some(found) if found.name() == "alias_1" => (),
+            other => return err("lookup", format!("alias_1 resolves to {:?} after the removals", other.map(|x| x.name()))),
         }
     }
     for i in 0..n {
@@ -618,7 +667,8 @@ fn scale_registry(n: usize) -> Result<(), (String, String)> {
             }
         }
     }
-    if c.get_all_command_names().len() != n / 2 {
+    let left = n / 2 + if n > 3 { 1 } else { 0 };
+    if c.get_all_command_names().len() != left {
         return err("name-count-after-remove", format!("{} names listed after removing {} of {}", c.get_all_command_names().len(), n - n / 2, n));
     }
     Ok(())
@@ -656,7 +706,7 @@ pub fn replay(case: &Value) -> Result<String, String> {
     Ok(format!("{:?} -> {:?}", seq, run_sequence(&seq)))
 }
 
-pub const RULE: &str = "Part A: explicit-state breadth-first search to a fixpoint from the empty registry over the Rust API: set(c) for every command with name in {a,b,c} and an alias set of size <= 2 from the pool, remove/get/exists/get_for_use for every name of {a,b,c,x,y}, get_all_command_names; every transition is compared with the model (name table + alias table consulted first; an accepted registration drops an alias equal to the new name; removal drops exactly the aliases that point to the removed command): result of the call, refused registrations and lookups leave both public maps identical, every lookup of the universe agrees, no alias points to a missing command. Part B: every sequence of 1..k script-level operations (alias / unalias / remove_command / is_command_defined / fn definition / call, over the names x, y, echo and std::Echo) run as one script on the full standard library; outputs of every step and the final name and alias tables of the whole registry are compared with the same model. evaluations = transitions + scripts. Scale case: a registry of 300/3000 (thorough 30000) commands with two aliases each: every name and alias resolves to its own command, refused registrations leave no trace, removing every second command (by name or alias) leaves exactly the others. While functions run: remove_command / unalias / alias of the running function, its caller, a function that is not running and an sdk command, issued from a function called by another one: the registry follows at once and both invocations finish";
+pub const RULE: &str = "Part A: explicit-state breadth-first search to a fixpoint from the empty registry over the Rust API: set(c) for every command with name in {a,b,c} and an alias set of size <= 2 from the pool, remove/get/exists/get_for_use for every name of {a,b,c,x,y}, get_all_command_names; every transition is compared with the model (name table + alias table consulted first; an accepted registration drops an alias equal to the new name; removal drops exactly the aliases that point to the removed command): result of the call, refused registrations and lookups leave both public maps identical, every lookup of the universe agrees, no alias points to a missing command. Part B: every sequence of 1..k script-level operations (alias / unalias / remove_command / is_command_defined / fn definition / call, over the names x, y, echo and std::Echo) run as one script on the full standard library; outputs of every step and the final name and alias tables of the whole registry are compared with the same model. evaluations = transitions + scripts. Scale case: a registry of 300/3000 (thorough 30000) commands with two aliases each: every name and alias resolves to its own command, refused registrations leave no trace, removing every second command (by name or alias) leaves exactly the others. While functions run: remove_command / unalias / alias of the running function, its caller, a function that is not running and an sdk command, issued from a function called by another one: the registry follows at once and both invocations finish. The long history keeps a model of both tables (compared after every removal up to 200), with a command registered under the name of an existing alias first; sizes at the thresholds";
 pub const ASSUMPTIONS: &[&str] = &["unalias of a name that was once created with alias removes whatever command that name resolves to now (the implementation's bookkeeping is mirrored)", "a function defined twice in one script is refused by the function table, not the registry"];
 pub const EXHAUSTIVE: bool = true;
 pub const WALL_CAP_S: (u64, u64) = (55, 1500);
